@@ -51,6 +51,8 @@ def run(kind):
         hit = [l for l in fired if exp in l]
         if p.returncode == 2:
             return (m['name'], 'error', (p.stderr.strip().splitlines() or ['?'])[-1][:200])
+        if kind == 'refactors' and m.get('expect_fire') and fired:
+            return (m['name'], 'documented', 'fires as documented (vacuity guard / out-of-scope rewrite): ' + fired[0][:160])
         if hit: return (m['name'], good, hit[0][:200])
         if fired: return (m['name'], other, fired[0][:200])
         return (m['name'], bad, exp)
@@ -58,6 +60,7 @@ def run(kind):
     with ThreadPoolExecutor(max_workers=int(os.environ.get('VERIF_JOBS', '4'))) as ex:
         res = list(ex.map(one, entries))
     n = {k: sum(1 for r in res if r[1] == k) for k in (good, other, bad, 'skipped', 'error')}
+    if any(r[1] == 'documented' for r in res): n['documented'] = sum(1 for r in res if r[1] == 'documented')
     for r in res: print(f"self-test {prop} {r[1]:12s} {r[0]}: {r[2]}")
     print(f"self-test {prop}: {n}")
     os.makedirs(os.path.join(here, 'reports'), exist_ok=True)
